@@ -3,6 +3,12 @@
   One reply per line: (ok …) | (err …) | (bad-request).  Imports only Y0.Model/Y0.Driver (no Mathlib).
 -/
 import Y0.Driver.Graph
+import Y0.Driver.Sep
+import Y0.Driver.Expr
+import Y0.Driver.Id
+import Y0.Driver.Latent
+import Y0.Driver.Cf
+import Y0.Driver.Transport
 
 open Y0 Y0.Driver
 
@@ -12,6 +18,12 @@ def dispatch (line : String) : String :=
     let r : Option Sexp :=
       match fam with
       | "graph" => handleGraph op args
+      | "sep" => handleSep op args
+      | "expr" => handleExpr op args
+      | "id" => handleId op args
+      | "latent" => handleLatent op args
+      | "cf" => handleCf op args
+      | "transport" => handleTransport op args
       | _ => none
     match r with
     | some s => toString s
